@@ -154,7 +154,7 @@ Fixpoint tuple_de (args : list rty) (fs : list field) (l : list json) : option (
   end.
 
 (* the content of a struct / a variant, by shape; the result is the list of field values *)
-Definition shape_de (args : list rty) (rename_all : option rule) (s : shape) (j : json) : dres :=
+Definition shape_de (seq : bool) (args : list rty) (rename_all : option rule) (s : shape) (j : json) : dres :=
   match s with
   | SUnit => match j with JNull => DOk (VStruct []) | _ => DReject end
   | STuple [f] => dbind (dt (rsubst args (f_serde_ty f)) j) (fun v => DOk (VStruct [v]))
@@ -164,7 +164,8 @@ Definition shape_de (args : list rty) (rename_all : option rule) (s : shape) (j 
                  end
   | SNamed fs => match j with
                  | JObj es => named_de args rename_all fs es
-                 | JArr l => match tuple_de args fs l with Some rs => dseq rs VStruct | None => DReject end   (* derive(Deserialize) also reads a sequence *)
+                 | JArr l =>    (* derive(Deserialize) also reads a sequence, except for a struct variant of an untagged enum *)
+                     if seq then match tuple_de args fs l with Some rs => dseq rs VStruct | None => DReject end else DReject
                  | _ => DReject
                  end
   end.
@@ -190,7 +191,7 @@ Fixpoint untagged_de (args : list rty) (raf : option rule) (i : nat) (vs : list 
   | [] => DReject
   | v :: r =>
       if v_skip v then untagged_de args raf (S i) r j
-      else match shape_de args (variant_ra raf v) (v_shape v) j with
+      else match shape_de false args (variant_ra raf v) (v_shape v) j with
            | DOk x => DOk (VVariant i (fields_of x))
            | DMisfit => match untagged_de args raf (S i) r j with DOk y => DOk y | _ => DMisfit end
            | DReject => untagged_de args raf (S i) r j
@@ -199,7 +200,7 @@ Fixpoint untagged_de (args : list rty) (raf : option rule) (i : nat) (vs : list 
 
 Definition def_de (d : typedef) (args : list rty) (j : json) : dres :=
   match d with
-  | DStruct a s => shape_de args (c_rename_all a) s j        (* a struct-level tag is not required when reading *)
+  | DStruct a s => shape_de true args (c_rename_all a) s j        (* a struct-level tag is not required when reading *)
   | DEnum a tg raf vars =>
       match tg with
       | External =>
@@ -211,7 +212,7 @@ Definition def_de (d : typedef) (args : list rty) (j : json) : dres :=
               end
           | JObj [(name, x)] =>
               match find_variant a name 0 vars with
-              | Some (i, v) => dbind (shape_de args (variant_ra raf v) (v_shape v) x) (fun c => DOk (VVariant i (fields_of c)))
+              | Some (i, v) => dbind (shape_de true args (variant_ra raf v) (v_shape v) x) (fun c => DOk (VVariant i (fields_of c)))
               | None => DReject
               end
           | _ => DReject
@@ -226,7 +227,7 @@ Definition def_de (d : typedef) (args : list rty) (j : json) : dres :=
                       match v_shape v with
                       | SUnit => DOk (VVariant i [])
                       | STuple [_] | SNamed _ =>
-                          dbind (shape_de args (variant_ra raf v) (v_shape v) (JObj (remove_key t es))) (fun c => DOk (VVariant i (fields_of c)))
+                          dbind (shape_de true args (variant_ra raf v) (v_shape v) (JObj (remove_key t es))) (fun c => DOk (VVariant i (fields_of c)))
                       | STuple _ => DReject
                       end
                   | None => DReject
@@ -244,9 +245,9 @@ Definition def_de (d : typedef) (args : list rty) (j : json) : dres :=
                   | Some (i, v) =>
                       match v_shape v, assoc c es with
                       | SUnit, _ => DOk (VVariant i [])
-                      | _, Some x => dbind (shape_de args (variant_ra raf v) (v_shape v) x) (fun cv => DOk (VVariant i (fields_of cv)))
+                      | _, Some x => dbind (shape_de true args (variant_ra raf v) (v_shape v) x) (fun cv => DOk (VVariant i (fields_of cv)))
                       | _, None =>      (* missing content: read as unit (accepted by Option and unit payloads) *)
-                          dbind (shape_de args (variant_ra raf v) (v_shape v) JNull) (fun cv => DOk (VVariant i (fields_of cv)))
+                          dbind (shape_de true args (variant_ra raf v) (v_shape v) JNull) (fun cv => DOk (VVariant i (fields_of cv)))
                       end
                   | None => DReject
                   end
